@@ -14,9 +14,13 @@ import (
 	"crypto/x509/pkix"
 	"encoding/json"
 	"fmt"
+	"io"
 	"math/big"
 	"net"
 	"net/url"
+	"os"
+	"os/exec"
+	"path/filepath"
 	"strings"
 	"sync"
 	"sync/atomic"
@@ -112,7 +116,56 @@ const (
 	c09RT   = 200 * time.Millisecond
 	c09Late = 500 * time.Millisecond
 	c09WT   = 5 * time.Second
+	// proxy.dialtimeout as fabio.properties ships it
+	c09DialDefault = 30 * time.Second
 )
+
+// c09StartFabio starts the real fabio binary with a tcp-dynamic listener (refresh=100ms) and static routes:
+// a tcp route on a port of its own to upAddr and, next to it, an http route whose host carries a port.
+// It returns the address of the dynamic listener once that accepts connections.
+func c09StartFabio(bin, upAddr string, upL *net.TCPListener) (addr string, stop func(), err error) {
+	pl, paddr, err := verifx.ListenFree()
+	if err != nil {
+		return "", nil, err
+	}
+	pl.Close()
+	ul, uiAddr, err := verifx.ListenFree()
+	if err != nil {
+		return "", nil, err
+	}
+	ul.Close()
+	_, port, _ := net.SplitHostPort(paddr)
+	routes := fmt.Sprintf("route add c09dyn 127.0.0.1:%s tcp://%s\nroute add c09web web.example.com:8443/ http://127.0.0.1:9/\n", port, upAddr)
+	logf, _ := os.Create(filepath.Join(os.Getenv("VERIF_TMP"), "c09-fabio.log"))
+	cmd := exec.Command(bin, "-registry.backend", "static", "-registry.static.routes", routes,
+		"-proxy.addr", "0.0.0.0:0;proto=tcp-dynamic;refresh=100ms", "-ui.addr", uiAddr, "-log.level", "WARN", "-proxy.shutdownwait", "50ms", "-insecure")
+	cmd.Stdout, cmd.Stderr = logf, logf
+	if err := cmd.Start(); err != nil {
+		return "", nil, err
+	}
+	stop = func() { cmd.Process.Kill(); cmd.Wait(); logf.Close() }
+	deadline := time.Now().Add(20 * time.Second)
+	for time.Now().Before(deadline) {
+		c, err := net.DialTimeout("tcp", "127.0.0.1:"+port, time.Second)
+		if err == nil {
+			// the probe is a tunnel of its own: take its upstream side away before the scenarios start
+			upL.SetDeadline(time.Now().Add(10 * time.Second))
+			u, uerr := upL.Accept()
+			upL.SetDeadline(time.Time{})
+			c.Close()
+			if uerr != nil {
+				stop()
+				return "", nil, fmt.Errorf("the probe connection through the tcp-dynamic listener did not reach the upstream: %v", uerr)
+			}
+			io.Copy(io.Discard, u)
+			u.Close()
+			return "127.0.0.1:" + port, stop, nil
+		}
+		time.Sleep(50 * time.Millisecond) // waiting for the listener to come up; a time-out is "not established", never a verdict
+	}
+	stop()
+	return "", nil, fmt.Errorf("the tcp-dynamic listener on port %s did not come up within 20 s", port)
+}
 
 // c09Lane is one proxy per path kind in front of one scripted upstream (and a second upstream
 // whose kernel holds little: what it does not read stays queued inside the proxy's connection).
@@ -160,14 +213,18 @@ func c09NewLane(cert tls.Certificate) (*c09Lane, error) {
 		return nil, err
 	}
 	l.deadAddr, l.releaseDead = deadAddr, release
-	for path, h := range map[string]Handler{
-		"tcp": &Proxy{Lookup: l.target},
-		"sni": &SNIProxy{Lookup: l.target},
-		"dyn": &DynamicProxy{Lookup: l.target},
-		"tls": &Proxy{Lookup: l.target}, // proto=tcp listener with a certificate source: fabio terminates TLS
+	for path, mk := range map[string]func(dt time.Duration) Handler{
+		"tcp": func(dt time.Duration) Handler { return &Proxy{Lookup: l.target, DialTimeout: dt} },
+		"sni": func(dt time.Duration) Handler { return &SNIProxy{Lookup: l.target, DialTimeout: dt} },
+		"dyn": func(dt time.Duration) Handler { return &DynamicProxy{Lookup: l.target, DialTimeout: dt} },
+		// proto=tcp listener with a certificate source: fabio terminates TLS
+		"tls": func(dt time.Duration) Handler { return &Proxy{Lookup: l.target, DialTimeout: dt} },
 	} {
-		// listener configurations (proxy.addr options rt= / wt=): none, read timeout, write timeout, both
-		for conf, to := range map[string][2]time.Duration{"": {0, 0}, "rt": {c09RT, 0}, "wt": {0, c09WT}, "both": {c09RT, c09WT}} {
+		// configurations: listener options rt= / wt= (none, read timeout, write timeout, both) and proxy.dialtimeout
+		// (fabio's default of 30 s everywhere; "dt": a short one, which the tunnels of the scenarios about it outlive)
+		for conf, to := range map[string][3]time.Duration{"": {0, 0, c09DialDefault}, "rt": {c09RT, 0, c09DialDefault}, "wt": {0, c09WT, c09DialDefault},
+			"both": {c09RT, c09WT, c09DialDefault}, "dt": {0, 0, c09RT}} {
+			h := mk(to[2])
 			ln, addr, err := verifx.ListenFree()
 			if err != nil {
 				l.close()
@@ -247,6 +304,80 @@ func TestVerifC09(t *testing.T) {
 			l.close()
 		}
 	}()
+	// the real fabio binary with a tcp-dynamic listener, for the scenarios in which a tunnel lives across refreshes
+	var dynJobs chan *verifx.TunnelCase
+	var dynPlayed int64
+	hasDyn := false
+	for i := range cases {
+		hasDyn = hasDyn || cases[i].Path == "dynbin"
+	}
+	play := func(c *verifx.TunnelCase, env *verifx.TunnelEnv, hello []byte) {
+		res := verifx.RunTunnel(env, c, hello)
+		atomic.AddInt64(&ran, 1)
+		if n, ok := perPath[c.Path]; ok {
+			atomic.AddInt64(n, 1)
+		}
+		clause, msg := verifx.JudgeTunnel(c, res)
+		if c.Path == "dynbin" && clause == "not-tunnelled" && strings.HasPrefix(msg, "dial proxy") {
+			// the listener had come up and the routing table never changes: a refused connection means the
+			// tcp-dynamic listener was taken down although its route exists
+			clause, msg = "listener-gone-while-route-exists", "tcp-dynamic listener: "+msg
+		}
+		switch clause {
+		case "":
+			atomic.AddInt64(&evals, 2)
+		case "hang":
+			atomic.AddInt64(&hangs, 1)
+			verifx.Emit(map[string]any{"kind": "hang", "case": c, "msg": msg})
+		case "not-tunnelled":
+			atomic.AddInt64(&skipped, 1)
+			verifx.Emit(map[string]any{"kind": "skip", "case": c, "msg": msg})
+		default:
+			atomic.AddInt64(&evals, 2)
+			feat := map[string]any{"path": c.Path, "clause": clause}
+			if c.Sc.CMode == "abort" {
+				feat["end"] = res.UEnd() // how the upstream's connection ended: eof | reset | error
+			}
+			verifx.Fail(c, feat, "%s", msg)
+		}
+		if c.Sc.RT == 1 {
+			atomic.AddInt64(&rtCases, 1)
+		}
+		b, _ := json.Marshal([]any{c.Sc, c.Path, c.Spell, c.Split, c.Hello, c.TLSVer, c.Cork, c.Conf})
+		if _, dup := seen.LoadOrStore(verifx.Hash(b), true); !dup && len(res.ExpU) > 0 && len(res.ExpC) > 0 {
+			atomic.AddInt64(&nontrivial, 1)
+		}
+		if c.ID%997 == 5 {
+			sampleMu.Lock()
+			if len(samples) < 4 {
+				sb, _ := json.Marshal(c)
+				samples = append(samples, string(sb))
+			}
+			sampleMu.Unlock()
+		}
+	}
+	if bin := os.Getenv("VERIF_FABIO_BIN"); hasDyn && bin != "" {
+		dl, dupAddr, err := verifx.ListenFree()
+		if err != nil {
+			t.Fatal(err)
+		}
+		defer dl.Close()
+		daddr, stop, err := c09StartFabio(bin, dupAddr, dl)
+		if err != nil {
+			verifx.Emit(map[string]any{"kind": "error", "msg": "fabio binary with a tcp-dynamic listener: " + err.Error()})
+		} else {
+			defer stop()
+			dynJobs = make(chan *verifx.TunnelCase, 64)
+			wg.Add(1)
+			go func() {
+				defer wg.Done()
+				for c := range dynJobs {
+					atomic.AddInt64(&dynPlayed, 1)
+					play(c, &verifx.TunnelEnv{ProxyAddr: daddr, UpL: dl, Late: c09Late}, nil)
+				}
+			}()
+		}
+	}
 	for _, lane := range lanes {
 		lane := lane
 		wg.Add(1)
@@ -259,8 +390,8 @@ func TestVerifC09(t *testing.T) {
 					continue
 				}
 				addr, ok := lane.addr[c.Path+"/"+c.Conf]
-				if (c.Sc.RT == 1) != (c.Conf == "rt" || c.Conf == "both") {
-					ok = false // a read timeout only where the scenario is about one
+				if (c.Sc.RT == 1) != (c.Conf == "rt" || c.Conf == "both") || (c.Sc.DT == 1) != (c.Conf == "dt") {
+					ok = false // a read timeout / a short dial timeout only where the scenario is about one
 				}
 				hello := hellos[c.Hello]
 				if !ok || (c.Sc.Kind == "sni") != (c.Path == "sni") || (c.Sc.Kind == "sni" && hello == nil) || (c.Path == "dyn" && c.Sc.Proxy == 1) {
@@ -285,53 +416,27 @@ func TestVerifC09(t *testing.T) {
 				if c.Path == "tls" {
 					env.TLSClient = tlsClient
 				}
-				res := verifx.RunTunnel(env, c, hello)
-				atomic.AddInt64(&ran, 1)
-				atomic.AddInt64(perPath[c.Path], 1)
-				clause, msg := verifx.JudgeTunnel(c, res)
-				switch clause {
-				case "":
-					atomic.AddInt64(&evals, 2)
-				case "hang":
-					atomic.AddInt64(&hangs, 1)
-					verifx.Emit(map[string]any{"kind": "hang", "case": c, "msg": msg})
-				case "not-tunnelled":
-					atomic.AddInt64(&skipped, 1)
-					verifx.Emit(map[string]any{"kind": "skip", "case": c, "msg": msg})
-				default:
-					atomic.AddInt64(&evals, 2)
-					feat := map[string]any{"path": c.Path, "clause": clause}
-					if c.Sc.CMode == "abort" {
-						feat["end"] = res.UEnd() // how the upstream's connection ended: eof | reset | error
-					}
-					verifx.Fail(c, feat, "%s", msg)
-				}
-				if c.Sc.RT == 1 {
-					atomic.AddInt64(&rtCases, 1)
-				}
-				b, _ := json.Marshal([]any{c.Sc, c.Path, c.Spell, c.Split, c.Hello, c.TLSVer, c.Cork, c.Conf})
-				if _, dup := seen.LoadOrStore(verifx.Hash(b), true); !dup && len(res.ExpU) > 0 && len(res.ExpC) > 0 {
-					atomic.AddInt64(&nontrivial, 1)
-				}
-				if c.ID%997 == 5 {
-					sampleMu.Lock()
-					if len(samples) < 4 {
-						sb, _ := json.Marshal(c)
-						samples = append(samples, string(sb))
-					}
-					sampleMu.Unlock()
-				}
+				play(c, env, hello)
 			}
 		}()
 	}
 	for i := range cases {
+		if cases[i].Path == "dynbin" {
+			if dynJobs != nil {
+				dynJobs <- &cases[i]
+			}
+			continue
+		}
 		jobs <- &cases[i]
 	}
 	close(jobs)
+	if dynJobs != nil {
+		close(dynJobs)
+	}
 	wg.Wait()
 	verifx.Summary(map[string]any{"cases": len(cases), "ran": ran, "evaluations": evals, "distinct_nontrivial": nontrivial,
 		"hangs": hangs, "skipped": skipped, "aborted": aborted, "samples": samples,
 		"tcp": *perPath["tcp"], "sni": *perPath["sni"], "dyn": *perPath["dyn"], "tls": *perPath["tls"],
-		"failing_direction": errFamily, "unsupported": unsupported, "read_timeout": rtCases,
+		"failing_direction": errFamily, "unsupported": unsupported, "read_timeout": rtCases, "dynbin": dynPlayed,
 		"hello_sizes": map[string]int{"tls13": len(hellos["tls13"]), "tls12": len(hellos["tls12"]), "alpn5k": len(hellos["alpn5k"]), "alpn12k": len(hellos["alpn12k"])}})
 }
